@@ -26,7 +26,7 @@ REPO = Path(os.environ.get("MIDGARD_REPO", "/repo"))
 EVIDENCE = VERIF / "evidence"
 REPLAYS = EVIDENCE / "replays"
 KNOWN = VERIF / "known_findings.txt"
-DRIVER = LEAN / ".lake" / "build" / "bin" / "driver"
+BIN = LEAN / ".lake" / "build" / "bin"
 GUARD = "MIDGARD_VERIF"
 
 ADMISSIBLE_AXIOMS = {"propext", "Classical.choice", "Quot.sound"}
@@ -176,7 +176,7 @@ def prove(prop: str, extra_targets: Sequence[str] = ()) -> ProofResult:
     """lake build Midgard.Props.<prop> (+driver), audit axioms and forbidden tokens."""
     r = ProofResult()
     module = f"Midgard.Props.{prop}"
-    targets = [module, "driver", *extra_targets]
+    targets = [module, f"drv_{prop.lower()}", *extra_targets]
     r.checker_cmd = "cd lean && lake build " + " ".join(targets)
     ok, log = lake_build(targets)
     r.log_tail = "\n".join([l for l in log.splitlines() if not l.startswith("info:") or "error" in l][-40:])
@@ -207,13 +207,14 @@ def prove(prop: str, extra_targets: Sequence[str] = ()) -> ProofResult:
 class Driver:
     """The compiled Lean model behind its line protocol."""
 
-    def __init__(self):
-        if not DRIVER.exists():
-            ok, log = lake_build(["driver"])
+    def __init__(self, prop: str):
+        exe = BIN / f"drv_{prop.lower()}"
+        if not exe.exists():
+            ok, log = lake_build([f"drv_{prop.lower()}"])
             if not ok:
                 raise ToolFailure("driver does not build:\n" + log[-2000:])
         self.p = subprocess.Popen(
-            [str(DRIVER)], stdin=subprocess.PIPE, stdout=subprocess.PIPE, text=True, bufsize=1 << 16
+            [str(exe)], stdin=subprocess.PIPE, stdout=subprocess.PIPE, text=True, bufsize=1 << 16
         )
 
     def ask(self, lines: Sequence[str]) -> List[str]:
@@ -313,7 +314,7 @@ class Ctx:
     @property
     def driver(self) -> Driver:
         if self._driver is None:
-            self._driver = Driver()
+            self._driver = Driver(self.prop)
         return self._driver
 
     def count(self, key: str, n: int = 1):
